@@ -35,10 +35,10 @@ const (
 
 var kindName = [3]string{"P", "v", "c"}
 
-// Two heights are folded into one "virtual round" axis: rk = height*hStride + round (round <= 3). Everything that is
+// Two heights are folded into one "virtual round" axis: rk = height*hStride + round (round <= hStride-1). Everything that is
 // indexed or ordered by round (message classes, timeout bits, monitor tables) uses rk, so height-0 classes sort
 // before height-1 classes and single-height configurations are unchanged (rk == round).
-const hStride = 4
+const hStride = 5
 
 func rkOf(h, r int) int8 { return int8(h*hStride + r) }
 
